@@ -88,7 +88,7 @@ pub(crate) fn inv() {
         assert!(FS[B] == S_B, "VP-C05/C02: unrelated files are never touched");
         assert!(!LOCK_FAILED || MUTATIONS == 0, "VP-C20: file-system mutation although the lock was refused");
         if D_PRE {
-            assert!(FS[D] == S_DPRE, "VP-C18: an existing move target is never overwritten or altered");
+            assert!(FS[D] == S_DPRE, "VP-C18/C02: an existing move target is never overwritten or altered");
         }
         let orig_at_l = FS[L] == S_L;
         let orig_at_t = FS[T] == S_L;
